@@ -12,19 +12,24 @@
    Gen/PullBack.v regenerated from the source); [pden S d pf e] = the classical meaning of e on the physical domain
    (grad = (d_i f), (d_i F_j); curl; div; laplace; dot; ...), written directly with the physical derivations;
    [tev S t] = the value of the tensor of terminal expressions t.  [wt] = the kinds the constructors accept;
-   [ldf] = the denominators met while differentiating do not vanish. *)
+   [ldf] = the denominators met while differentiating do not vanish.
+   The model and every lemma carry the SIDE of an interface as a parameter ([logical d m sd e]: the logical unknowns are
+   the atoms AFld true f c sd al; sd = SNone away from interfaces, which is what the theorems of the first part use);
+   the second part (C03_restricted_*, C03_interface_sound) is about functions restricted to one side of an interface of
+   a mapped multi-patch domain: each restricted function is pulled back with the mapping of ITS side. *)
 From Coq Require Import String ZArith List Bool Arith.
 From V Require Import Core.Terminal Core.DField Core.Classical Gen.PullBack Model.LogicalM Proofs.LogicalP.
+From V Require Import Model.LogicalIfM Proofs.LogicalIfP.
 Import ListNotations. Open Scope string_scope.
 
 (* the transformed expression denotes the original one: all trees of the modelled fragment, five kinds, d = 1,2,3,
    every mapping (symbolic: catalogue, polynomial and user mappings are instances, see C03_analytical_mappings) *)
 Theorem C03_sound : forall (S : dfield) m d pf kinds e t,
   mapped S m d -> pulled_back S m d pf kinds ->
-  wt kinds e -> ldf S m d e -> logical d m e = Some t -> pden S d pf e = Some (tev S t).
+  wt kinds e -> ldf S m d SNone e -> logical d m SNone e = Some t -> pden S d pf e = Some (tev S t).
 Proof.
   intros S m d pf kinds e t (Hd & Hc & Hz) (Hr & Hx) Hw Hl H.
-  exact (logical_sound S m d Hd Hc Hz pf kinds Hr Hx e Hw Hl t H).
+  exact (logical_sound S m d Hd Hc Hz pf kinds SNone Hr Hx e Hw Hl t H).
 Qed.
 Print Assumptions C03_sound.
 
@@ -39,33 +44,33 @@ Print Assumptions C03_gradient_commutes.
 (* Piola transformation of the curl: curl u = (1/det J) J curl^ u^ (3-D), (1/det J) curl^ u^ (2-D), u^ = J^T u *)
 Theorem C03_piola_curl : forall (S : dfield) m d pf kinds f t,
   mapped S m d -> pulled_back S m d pf kinds -> kinds f = KHcurl ->
-  logical d m (LCurl (LVF f KHcurl)) = Some t -> pden S d pf (LCurl (LVF f KHcurl)) = Some (tev S t).
-Proof. intros S m d pf kinds f t (Hd & Hc & Hz) (Hr & Hx) Hk H. exact (piola_curl_sound S m d Hd Hc Hz pf kinds Hr f t Hk H). Qed.
+  logical d m SNone (LCurl (LVF f KHcurl)) = Some t -> pden S d pf (LCurl (LVF f KHcurl)) = Some (tev S t).
+Proof. intros S m d pf kinds f t (Hd & Hc & Hz) (Hr & Hx) Hk H. exact (piola_curl_sound S m d Hd Hc Hz pf kinds SNone Hr f t Hk H). Qed.
 Print Assumptions C03_piola_curl.
 
 (* Piola transformation of the divergence: div u = (1/det J) div^ u^, u^ = det J J^-1 u
    (uses the symmetry of the second derivatives of the mapping) *)
 Theorem C03_piola_div : forall (S : dfield) m d pf kinds f t,
   mapped S m d -> pulled_back S m d pf kinds -> kinds f = KHdiv ->
-  logical d m (LDiv (LVF f KHdiv)) = Some t -> pden S d pf (LDiv (LVF f KHdiv)) = Some (tev S t).
-Proof. intros S m d pf kinds f t (Hd & Hc & Hz) (Hr & Hx) Hk H. exact (piola_div_sound S m d Hd Hc Hz pf kinds Hr f t Hk H). Qed.
+  logical d m SNone (LDiv (LVF f KHdiv)) = Some t -> pden S d pf (LDiv (LVF f KHdiv)) = Some (tev S t).
+Proof. intros S m d pf kinds f t (Hd & Hc & Hz) (Hr & Hx) Hk H. exact (piola_div_sound S m d Hd Hc Hz pf kinds SNone Hr f t Hk H). Qed.
 Print Assumptions C03_piola_div.
 
 (* the pull-back formulas of the five kinds (table regenerated from PullBack.__new__) invert the relation *)
 Theorem C03_pullback_formulas : forall (S : dfield) m d pf kinds f t,
   mapped S m d -> pulled_back S m d pf kinds ->
-  pullback d m f (kinds f) true = Some t -> tev S t = FVec S (map (fun c => pf f (Datatypes.S c)) (seq0 d)).
-Proof. intros S m d pf kinds f t (Hd & Hc & Hz) (Hr & Hx) H. exact (pullback_vec_sound S m d Hd Hc Hz pf kinds Hr f t H). Qed.
+  pullback d m SNone f (kinds f) true = Some t -> tev S t = FVec S (map (fun c => pf f (Datatypes.S c)) (seq0 d)).
+Proof. intros S m d pf kinds f t (Hd & Hc & Hz) (Hr & Hx) H. exact (pullback_vec_sound S m d Hd Hc Hz pf kinds SNone Hr f t H). Qed.
 Print Assumptions C03_pullback_formulas.
 
 (* derivatives of any order: a chain dx_i1(dx_i2(...(a))) is transformed into the iterated physical derivative *)
 Theorem C03_derivatives_of_any_order : forall (S : dfield) m d pf kinds js a t x,
   mapped S m d -> pulled_back S m d pf kinds ->
-  wt kinds (LDs js a) -> ldf S m d (LDs js a) -> Forall (fun i => i < d) js -> pden S d pf a = Some (FSc S x) ->
-  logical d m (LDs js a) = Some t -> tev S t = FSc S (Dps S js x).
+  wt kinds (LDs js a) -> ldf S m d SNone (LDs js a) -> Forall (fun i => i < d) js -> pden S d pf a = Some (FSc S x) ->
+  logical d m SNone (LDs js a) = Some t -> tev S t = FSc S (Dps S js x).
 Proof.
   intros S m d pf kinds js a t x (Hd & Hc & Hz) (Hr & Hx) Hw Hl Hj Ha H.
-  exact (dx_any_order S m d Hd Hc Hz pf kinds Hr Hx js a t x Hw Hl Hj Ha H).
+  exact (dx_any_order S m d Hd Hc Hz pf kinds SNone Hr Hx js a t x Hw Hl Hj Ha H).
 Qed.
 Print Assumptions C03_derivatives_of_any_order.
 
@@ -91,19 +96,118 @@ Theorem C03_argument_canonicalisation : forall (S : dfield) eqb reps t,
 Proof. intros S eqb reps t H. exact (canon_ev S eqb H reps t). Qed.
 Print Assumptions C03_argument_canonicalisation.
 
+(* ---------------------------------------------------------------------------------------------------------------
+   Functions restricted to one side of an interface of a mapped multi-patch domain
+   --------------------------------------------------------------------------------------------------------------- *)
+
+(* the one-sided statement: an expression all of whose functions are restricted to the side sd of an interface is
+   transformed with the mapping m of THAT side's patch: its logical unknowns are the restricted atoms (AFld true f c sd al)
+   and [pulled_back_side S m d sd pf kinds] relates them to the one-sided physical functions by the rule of their kind.
+   Instances: grad(minus(u)) = J_minus^-T grad^(minus(u^)), curl / div of restricted H(curl) / H(div) functions with the
+   Piola factors of the patch of their side, dx/dy/dz of restricted functions to any order. *)
+Theorem C03_restricted_sound : forall (S : dfield) m d sd pf kinds e t,
+  mapped S m d -> pulled_back_side S m d sd pf kinds ->
+  wt kinds e -> ldf S m d sd e -> logical d m sd e = Some t -> pden S d pf e = Some (tev S t).
+Proof.
+  intros S m d sd pf kinds e t (Hd & Hc & Hz) (Hr & Hx) Hw Hl H.
+  exact (logical_sound S m d Hd Hc Hz pf kinds sd Hr Hx e Hw Hl t H).
+Qed.
+Print Assumptions C03_restricted_sound.
+
+(* the pull-back formulas of the five kinds for a restricted function, with the Jacobian of its side's mapping *)
+Theorem C03_restricted_pullback_formulas : forall (S : dfield) m d sd pf kinds f t,
+  mapped S m d -> pulled_back_side S m d sd pf kinds ->
+  pullback d m sd f (kinds f) true = Some t -> tev S t = FVec S (map (fun c => pf f (Datatypes.S c)) (seq0 d)).
+Proof. intros S m d sd pf kinds f t (Hd & Hc & Hz) (Hr & Hx) H. exact (pullback_vec_sound S m d Hd Hc Hz pf kinds sd Hr f t H). Qed.
+Print Assumptions C03_restricted_pullback_formulas.
+
+(* derivatives of any order of restricted functions *)
+Theorem C03_restricted_derivatives_of_any_order : forall (S : dfield) m d sd pf kinds js a t x,
+  mapped S m d -> pulled_back_side S m d sd pf kinds ->
+  wt kinds (LDs js a) -> ldf S m d sd (LDs js a) -> Forall (fun i => i < d) js -> pden S d pf a = Some (FSc S x) ->
+  logical d m sd (LDs js a) = Some t -> tev S t = FSc S (Dps S js x).
+Proof.
+  intros S m d sd pf kinds js a t x (Hd & Hc & Hz) (Hr & Hx) Hw Hl Hj Ha H.
+  exact (dx_any_order S m d Hd Hc Hz pf kinds sd Hr Hx js a t x Hw Hl Hj Ha H).
+Qed.
+Print Assumptions C03_restricted_derivatives_of_any_order.
+
+(* expressions that MIX the two sides (dot(grad(minus(u)), grad(plus(v))), minus(u)*dx(plus(v)), coefficients): three
+   differential fields - Sm, Sp = the two patches, each with its own mapping, chain rule and pull-back relation; SK =
+   where a kernel over the interface is evaluated - and two homomorphisms hm, hp that send the atoms of their side to the
+   atoms of the kernel (see Proofs/LogicalIfP.v interface_setting).  The value in SK of the model's output is the
+   classical value [iden]: every one-sided sub-expression evaluated classically on ITS patch (physical derivatives,
+   grad / curl / div / laplace), mapped into SK and combined there.  [iok]: the side conditions of the one-sided leaves
+   (wt, ldf, and the - decidable - fact that the output of a leaf contains only atoms of its side). *)
+Theorem C03_interface_sound : forall (Sm Sp SK : dfield) hm hp d mm mp exm exp ax bp pfm pfp kinds e t,
+  interface_setting Sm Sp SK hm hp d mm mp exm exp ax bp pfm pfp kinds ->
+  iok Sm Sp d mm mp exm exp kinds e ->
+  logical_if d mm mp exm exp ax bp e = Some t ->
+  iden Sm Sp SK hm hp d pfm pfp e = Some (tev SK t).
+Proof.
+  intros Sm Sp SK hm hp d mm mp exm exp ax bp pfm pfp kinds e t Hs Hok H.
+  exact (interface_sound_packed Sm Sp SK hm hp d mm mp exm exp ax bp pfm pfp kinds e t Hs Hok H).
+Qed.
+Print Assumptions C03_interface_sound.
+
+(* a homomorphism carries the value of a term written with the atoms of its side to the value of the renamed term *)
+Theorem C03_interface_atoms_transport : forall (S SK : dfield) h ok ren t,
+  is_hom S SK h -> (forall a, ok a = true -> h (ev S (TAt a)) = ev SK (ren a)) ->
+  all_atoms ok t = true -> h (ev S t) = ev SK (asubst ren t).
+Proof. intros S SK h ok ren t Hh Hat Hk. exact (hom_ev S SK h Hh ok ren Hat t Hk). Qed.
+Print Assumptions C03_interface_atoms_transport.
+
+(* the public helpers called directly: Covariant(M, v) = J^-T v inverts u^ = J^T u, Contravariant(M, v) = (J/det J) v
+   inverts u^ = det J J^-1 u (adjugate = det J J^-1, C03_hdiv_relation_literal), for every vector v *)
+Theorem C03_covariant_call : forall (S : dfield) m d v t,
+  mapped S m d -> covariant_call d m v = Some (Vec t) ->
+  map (ev S) (mat_vec (transp (jac d m)) t) = map (ev S) v.
+Proof.
+  intros S m d v t (Hd & Hc & Hz) H. unfold covariant_call in H.
+  destruct (Nat.eqb (length v) d) eqn:E; [|discriminate]. inversion H. apply Nat.eqb_eq in E.
+  exact (covariant_inverts S m d Hd Hc Hz v E).
+Qed.
+Print Assumptions C03_covariant_call.
+
+Theorem C03_contravariant_call : forall (S : dfield) m d v t,
+  mapped S m d -> contravariant_call d m v = Some (Vec t) ->
+  map (ev S) (mat_vec (adj_t d m) t) = map (ev S) v.
+Proof.
+  intros S m d v t (Hd & Hc & Hz) H. unfold contravariant_call in H.
+  destruct (Nat.eqb (length v) d) eqn:E; [|discriminate]. inversion H. apply Nat.eqb_eq in E.
+  exact (contravariant_inverts S m d Hd Hc Hz v E).
+Qed.
+Print Assumptions C03_contravariant_call.
+
+(* non-vacuity: the interface model computes, each side with its own mapping, and the decidable side condition of
+   [iok] (atoms of the leaf's side only) holds on the outputs *)
+Example C03_interface_model_computes :
+  (exists t, logical_if 2 "M1" "M2" [] [] 0 (TZ 0)
+               (IDot (ISide SMinus (LGrad (LSF "u" KH1))) (ISide SPlus (LGrad (LSF "v" KH1)))) = Some t) /\
+  (exists t, logical_if 2 "M1" "M2" [] [] 0 (TZ 0)
+               (IMul [IFree (LCoord 0); ISide SMinus (LSF "u" KH1); ISide SPlus (LD 1 (LD 0 (LSF "v" KH1)))]) = Some t) /\
+  (exists t, logical_if 3 "M1" "M2" [] [] 2 (TZ 1)
+               (IMul [ISide SPlus (LCurl (LVF "E" KHcurl)); ISide SMinus (LDiv (LVF "B" KHdiv))]) = Some t) /\
+  (forall t, logical 2 "M2" SPlus (LGrad (LSF "v" KH1)) = Some t -> tens_atoms (side_atom SPlus "M2") t = true) /\
+  (forall t, logical 2 "M1" SMinus (LGrad (LSF "v" KH1)) = Some t -> tens_atoms (side_atom SPlus "M2") t = false).
+Proof.
+  repeat split; try (eexists; vm_compute; reflexivity);
+    intros t H; vm_compute in H; inversion H; vm_compute; reflexivity.
+Qed.
+
 (* non-vacuity: the model computes on the expressions of the statement, in every dimension *)
 Example C03_model_computes :
-  (exists t, logical 2 "M" (LD 1 (LD 0 (LMul [LCoord 0; LSF "u" KH1]))) = Some t) /\
-  (exists t, logical 3 "M" (LCurl (LVF "E" KHcurl)) = Some t) /\
-  (exists t, logical 3 "M" (LDiv (LVF "B" KHdiv)) = Some t) /\
-  (exists t, logical 2 "M" (LLaplace (LSF "w" KUndef)) = Some t) /\
-  (exists t, logical 1 "M" (LMul [LSF "p" KL2; LD 0 (LComp "F" KL2 0)]) = Some t).
+  (exists t, logical 2 "M" SNone (LD 1 (LD 0 (LMul [LCoord 0; LSF "u" KH1]))) = Some t) /\
+  (exists t, logical 3 "M" SNone (LCurl (LVF "E" KHcurl)) = Some t) /\
+  (exists t, logical 3 "M" SNone (LDiv (LVF "B" KHdiv)) = Some t) /\
+  (exists t, logical 2 "M" SNone (LLaplace (LSF "w" KUndef)) = Some t) /\
+  (exists t, logical 1 "M" SNone (LMul [LSF "p" KL2; LD 0 (LComp "F" KL2 0)]) = Some t).
 Proof. repeat split; eexists; vm_compute; reflexivity. Qed.
 
 (* non-vacuity of [wt] and [ldf]: for dx(u) in 2-D they hold as soon as det J <> 0 *)
 Example C03_hypotheses_satisfiable : forall (S : dfield) kinds,
   kinds "u" = KH1 -> ev S (det_t 2 "M") <> f0 S ->
-  wt kinds (LD 0 (LSF "u" KH1)) /\ ldf S "M" 2 (LD 0 (LSF "u" KH1)).
+  wt kinds (LD 0 (LSF "u" KH1)) /\ ldf S "M" 2 SNone (LD 0 (LSF "u" KH1)).
 Proof.
   intros S kinds Hk Hz. split.
   - repeat split; auto.
@@ -118,5 +222,5 @@ Qed.
 
 (* non-vacuity of the function-free arm: grad of a coordinate-dependent coefficient *)
 Example C03_coefficient_gradient :
-  exists t, logical 2 "M" (LGrad (LMul [LCoord 0; LFn Fsin (LCoord 1)])) = Some t.
+  exists t, logical 2 "M" SNone (LGrad (LMul [LCoord 0; LFn Fsin (LCoord 1)])) = Some t.
 Proof. eexists. vm_compute. reflexivity. Qed.
